@@ -414,5 +414,23 @@ func run(c *mon.Ctx) {
 			c.Sample(func() interface{} { return wit{Op: "InsertPTS", Value: v, Want: mon.Hex(e[:])} })
 		}
 	})
+	c.Floor("concurrent.calls", 20000)
+	c.Stream("concurrent-codecs", c.N(3, 150), func(i int, r *gen.Rand) {
+		c.Concurrent("InsertPCR/ExtractPCR/InsertPTS/ExtractTime", 8, 1000, r, func(q *gen.Rand) string {
+			v, w := q.Uint64()%ref.PCRMax, q.U33()
+			b := q.Bytes(16)
+			gots.InsertPCR(b[0:6], v)
+			gots.InsertPTS(b[8:13], w)
+			e := ref.EncPCR(v)
+			if !bytes.Equal(b[0:6], e[:]) || gots.ExtractPCR(b[0:6]) != v {
+				return fmt.Sprintf("InsertPCR(%d) wrote %x (ISO encoding %x) and reads back %d", v, b[0:6], e, gots.ExtractPCR(b[0:6]))
+			}
+			if gots.ExtractTime(b[8:13]) != w || pes.ExtractTime(b[8:13]) != w || ref.DecPTS(b[8:13]) != w {
+				return fmt.Sprintf("InsertPTS(%d) wrote %x which reads back %d / %d", w, b[8:13], gots.ExtractTime(b[8:13]), pes.ExtractTime(b[8:13]))
+			}
+			return ""
+		})
+		c.Class("concurrent-codecs")
+	})
 	c.Stream("end-to-end", c.N(20000, 30000000), func(i int, r *gen.Rand) { endToEnd(c, r) })
 }
